@@ -226,6 +226,38 @@ def ztp6ParseVendorData (packet : Msg6) : Res VendorData :=
   | some (.vendorClass _ data), none => ztp6Scan packet data
   | some _, none => .panic
 
+/-! ### re-encoding a message (`ToBytes`) with its panic
+
+`encMsg` (Dhcp/V6/Codec.lean) is a total function into byte strings: the Go
+encoders of package dhcpv6 contain no panic-capable operation of their own
+(`write16` tests its argument, every loop ranges over a slice) EXCEPT through an
+embedded DHCPv4 message (option 87), whose `(*DHCPv4).ToBytes` panics in
+`writeIP` on a header address that is not IPv4 (`V4.enc4 p = .panic`);
+`enc4Bytes` maps that case to the empty string.  `msgEncPanics` finds that
+case at any depth and `encMsgR` is `ToBytes` with its panic. -/
+
+mutual
+def optEncPanics : Opt6 → Bool
+  | .dhcpv4Msg p => (V4.enc4 p).isPanic
+  | .relayMsg m => msgEncPanics m
+  | .iana _ _ _ os => optsEncPanics os
+  | .iata _ os => optsEncPanics os
+  | .iaaddr _ _ _ os => optsEncPanics os
+  | .iapd _ _ _ os => optsEncPanics os
+  | .iaprefix _ _ _ os => optsEncPanics os
+  | .fourRD os => optsEncPanics os
+  | _ => false
+def optsEncPanics : List Opt6 → Bool
+  | [] => false
+  | o :: os => optEncPanics o || optsEncPanics os
+def msgEncPanics : Msg6 → Bool
+  | .msg _ _ os => optsEncPanics os
+  | .relay _ _ _ _ os => optsEncPanics os
+end
+
+/-- `m.ToBytes()` -/
+def encMsgR (m : Msg6) : Res Bytes := if msgEncPanics m then .panic else .ok (encMsg m)
+
 /-! ### ztpv6.ParseRemoteID -/
 
 /-- `CircuitID` as `FormatCircuitID` prints it -/
